@@ -397,7 +397,8 @@ private:
         const std::vector<Node> &traversal,
         const ssize_t &pos,
         const std::vector<Node> &other_traversal,
-        const ssize_t &other_pos);
+        const ssize_t &other_pos,
+        const ssize_t &depth);
 
     template <bool PassRawNode = true>
     [[nodiscard]] py::object WalkImpl(
